@@ -205,6 +205,7 @@ func sortJSONArray(input gjson.Result, output []byte) []byte {
 func sortJSONObject(input gjson.Result, output []byte) []byte {
 	type entry struct {
 		key   string // The parsed key string
+		raw   string // The raw key, including its quotes and escapes
 		value gjson.Result
 	}
 
@@ -217,6 +218,7 @@ func sortJSONObject(input gjson.Result, output []byte) []byte {
 	input.ForEach(func(key, value gjson.Result) bool {
 		entries = append(entries, entry{
 			key:   key.String(),
+			raw:   key.Raw,
 			value: value,
 		})
 		return true // keep iterating
@@ -235,9 +237,8 @@ func sortJSONObject(input gjson.Result, output []byte) []byte {
 		sep = ','
 
 		// Append the raw unparsed JSON key, *not* the parsed key
-		output = append(output, '"')
-		output = append(output, entry.key...)
-		output = append(output, '"', ':')
+		output = append(output, entry.raw...)
+		output = append(output, ':')
 		output = sortJSONValue(entry.value, output)
 	}
 	if sep == '{' {
